@@ -56,6 +56,10 @@ func (fr *frame) callWithArgs(st *state, c *ssa.CallCommon, instr ssa.Instructio
 	text := fr.anchorText(pos, "callfull")
 	if fr.top && len(fr.fc.c.At) > 0 {
 		if cls, ok := fr.fc.c.At[text]; ok && instr != nil {
+			if fr.fc.atHit == nil {
+				fr.fc.atHit = map[string]bool{}
+			}
+			fr.fc.atHit[text] = true
 			env := fr.specEnv(st, fr.old)
 			for k, v := range fr.localsAt(instr.Block()) {
 				if _, ok := env.vars[k]; !ok {
